@@ -1,4 +1,5 @@
 import Proofs.Blockwise.C05Transfer
+import Proofs.Blockwise.C05Upload
 /-!
 # C05 — block-wise client transfers deliver both bodies intact or fail loudly
 
@@ -6,8 +7,13 @@ Model: `AiocoapModel/Blockwise/{BlockOptC,Client,RefServer}.lean` — the client
 `start`/`step` (run by the driver as `runClient` over recorded responses and as `transfer`
 against the reference server).  Three groups of theorems:
 
-* **wire** (`C05_block1_*`): against EVERY response sequence (conforming or not) the Block1
-  requests the client emits are an in-order, gap-free, duplicate-free cut of the payload;
+* **wire** (`C05_block1_*`, `C05_block2_szx_never_grows`): against EVERY response sequence
+  (conforming or not) the Block1 requests the client emits are an in-order, gap-free,
+  duplicate-free cut of the payload, and the size exponents of its Block2 requests never grow;
+* **upload complete** (`C05_ok_upload_complete`, `C05_ok_request_body_intact`): a run that yields
+  a response has emitted the final Block1 request — unless the SERVER ended the upload early in
+  one of two exactly described ways — so the hypothesis of `C05_block1_reassembles` is discharged
+  for such runs instead of assumed;
 * **conforming server** (`C05_transfer_*`): against the RFC 7959 reference server `Srv`, which
   may pick any size exponent in every exchange, the server records exactly the payload and the
   client returns exactly the server's representation — for all payloads, representations,
@@ -154,6 +160,11 @@ inductive Misbehaves (cfg : Cfg) : Phase → Resp → Prop
   /-- more flag or 2.31 Continue on the acknowledgement of the final block -/
   | moreOnFinal {st cur r a} : r.block1 = some a → (sentBlock1 st cur).more = false →
       (a.more = true ∨ r.code = codeContinue) → Misbehaves cfg (.b1 st cur) r
+  /-- 2.31 Continue without a Block1 option: a 2.31 only exists as the acknowledgement of a
+  Block1 block and can never be a final response (whether or not the block it answers is the
+  final one) -/
+  | continueWithoutBlock1 {st cur r} : r.block1 = none → r.code = codeContinue →
+      Misbehaves cfg (.b1 st cur) r
   /-- the response ending the upload carries a first Block2 block whose number is not 0 —
   WHATEVER its more flag (a "last block" that is not the first is only the tail of a body) -/
   | firstBlockNumber {st cur r b} : step cfg (.b1 st cur) r = completeBlock2 cfg cur r →
@@ -163,6 +174,10 @@ inductive Misbehaves (cfg : Cfg) : Phase → Resp → Prop
   | firstBlockSize {st cur r b} : step cfg (.b1 st cur) r = completeBlock2 cfg cur r →
       r.block2 = some b → b.more = true → b.validFor r.payload.length = false →
       Misbehaves cfg (.b1 st cur) r
+  /-- a block with a larger size exponent than the request it answers asked for (RFC 7959 2.4:
+  the server may use a smaller block size, never a larger one) -/
+  | szxGrows {t asm cur r b q} : r.block2 = some b → cur.block2 = some q → q.szx < b.szx →
+      Misbehaves cfg (.b2 t asm cur) r
   /-- payload length ≠ block size on a non-final block (or longer than a block on the last) -/
   | badSize {t asm cur r b} : r.block2 = some b → b.validFor r.payload.length = false →
       Misbehaves cfg (.b2 t asm cur) r
@@ -192,6 +207,11 @@ theorem step_misbehaves {cfg : Cfg} {ph : Phase} {r : Resp} (h : Misbehaves cfg 
         rcases hm with hm | hm <;> simp [hm]
       rw [if_neg hn]
       simp [hs, this]
+  | continueWithoutBlock1 ha hc => exact ⟨.unexpectedBlock1, step_b1_none_continue ha hc⟩
+  | @szxGrows t asm cur r b q hb hq hlt =>
+    refine ⟨.unexpectedBlock2, ?_⟩
+    rw [step_b2_some hb, if_pos]
+    simp [BwClient.szxGrows, hq, hlt]
   | @firstBlockNumber st cur r b hst hb hn =>
     rw [hst, completeBlock2_some hb]
     have : b.start ≠ 0 := fun h => hn (BlockOpt.start_eq_zero.mp h)
@@ -205,14 +225,23 @@ theorem step_misbehaves {cfg : Cfg} {ph : Phase} {r : Resp} (h : Misbehaves cfg 
       · exact ⟨.unexpectedBlock2, by simp [hm, hn]⟩
       · exact ⟨.unexpectedBlock2, by simp [hm, hbad]⟩
   | @codeChanged t asm cur r b hb hc =>
-    exact ⟨.unexpectedBlock2, by rw [step_b2_some hb, if_pos hc]⟩
+    rw [step_b2_some hb]
+    by_cases hg : BwClient.szxGrows cur b = true
+    · exact ⟨.unexpectedBlock2, by rw [if_pos hg]⟩
+    exact ⟨.unexpectedBlock2, by rw [if_neg hg, if_pos hc]⟩
   | @badSize t asm cur r b hb hv =>
     rw [step_b2_some hb]
+    by_cases hg : BwClient.szxGrows cur b = true
+    · exact ⟨.unexpectedBlock2, by rw [if_pos hg]⟩
+    rw [if_neg hg]
     by_cases hc : r.code ≠ asm.code
     · exact ⟨.unexpectedBlock2, by rw [if_pos hc]⟩
     · exact ⟨.unexpectedBlock2, by rw [if_neg hc]; simp [hv]⟩
   | @outOfSequence t asm cur r b hb hs =>
     rw [step_b2_some hb]
+    by_cases hg : BwClient.szxGrows cur b = true
+    · exact ⟨.unexpectedBlock2, by rw [if_pos hg]⟩
+    rw [if_neg hg]
     by_cases hc : r.code ≠ asm.code
     · exact ⟨.unexpectedBlock2, by rw [if_pos hc]⟩
     rw [if_neg hc]
@@ -221,6 +250,9 @@ theorem step_misbehaves {cfg : Cfg} {ph : Phase} {r : Resp} (h : Misbehaves cfg 
     · exact ⟨.unexpectedBlock2, by simp [hv]⟩
   | @etagChanged t asm cur r b hb he =>
     rw [step_b2_some hb]
+    by_cases hg : BwClient.szxGrows cur b = true
+    · exact ⟨.unexpectedBlock2, by rw [if_pos hg]⟩
+    rw [if_neg hg]
     by_cases hc : r.code ≠ asm.code
     · exact ⟨.unexpectedBlock2, by rw [if_pos hc]⟩
     rw [if_neg hc]
@@ -242,6 +274,8 @@ theorem C05_error_is_final (cfg : Cfg) (pre : List Resp) (r : Resp) (suf : List 
 
 /-- **C05 (misbehaviour ⇒ error, never a body).** After ANY history of responses, a response that
 acknowledges the wrong block number, sets the more flag / 2.31 on the final acknowledgement,
+is a 2.31 Continue without a Block1 option (to whatever block), carries a Block2 block with a
+larger size exponent than the request asked for,
 starts the download with a block whose number is not 0 (with or without the more flag),
 carries a payload whose length does not fit its Block2 option, does not continue where the body
 received so far ends (gap, repetition, unscaled number), carries a different response code than
@@ -256,13 +290,33 @@ theorem C05_misbehaviour_is_error (cfg : Cfg) (pre : List Resp) (r : Resp) (suf 
 /-- **C05 (a returned body is the server's body).** Let the upload end after the history `pre`
 with the response `first`, which is a truthfully labelled slice of `body` — of ANY block number:
 a first block that does not start at offset 0 is refused, with or without the more flag. Let the
-later responses be arbitrary as long as each has a Block2 option and — if it carries BOTH the
-ETag and the response code of the first block — is a truthfully labelled slice of `body` (ANY block
-number, ANY size; responses with another ETag or another code, e.g. error responses with a
-diagnostic payload, are completely arbitrary). Then the request cannot return anything but
-`body` (with the first response's code and ETag): no truncated, duplicated or mixed body. -/
+later responses be ARBITRARY, except that one which carries a Block2 option AND the ETag AND the
+response code of the first block is a truthfully labelled slice of `body` (ANY block number, ANY
+size; responses with another ETag or another code, e.g. error responses with a diagnostic payload,
+and responses without a Block2 option are completely arbitrary). Then the request cannot return
+anything but `body` (with the first response's code and ETag) — no truncated, duplicated or mixed
+body — with ONE exemption, stated exactly (`SingleResponse`): one of the later responses came
+without a Block2 option (in CoAP terms a complete response by itself, e.g. a 4.04 because the
+resource went away in mid-transfer) and the result is exactly that one response — its own code, its
+own ETag, its own payload — never combined with the blocks received before it. -/
 theorem C05_ok_is_server_body (cfg : Cfg) (pre : List Resp) (first : Resp) (rs : List Resp)
     (body : Bytes) (st : B1State) (cur : Req)
+    (hph : phaseAfter cfg (start cfg) pre = .b1 st cur)
+    (hends : step cfg (.b1 st cur) first = completeBlock2 cfg cur first)
+    (h0 : Truthful body first)
+    (H : ∀ r ∈ rs, r.block2.isSome = true → r.etag = first.etag → r.code = first.code →
+      Truthful body r)
+    (o : Body) (hok : (runClient cfg (pre ++ first :: rs)).2 = .ok o) :
+    (o.payload = body ∧ o.etag = first.etag ∧ o.code = first.code) ∨
+    (∃ r ∈ rs, r.block2 = none ∧ o = bodyOf r) := by
+  unfold runClient at hok
+  rw [go_outcome_append, hph, go_cons, hends] at hok
+  exact completeBlock2_ok_is_body cfg cur body first rs h0 H o hok
+
+/-- **C05 (… and nothing else when every later response carries a Block2 option).** The form of
+the first round: no exemption is left when no later response lacks the Block2 option. -/
+theorem C05_ok_is_server_body_blockwise (cfg : Cfg) (pre : List Resp) (first : Resp)
+    (rs : List Resp) (body : Bytes) (st : B1State) (cur : Req)
     (hph : phaseAfter cfg (start cfg) pre = .b1 st cur)
     (hends : step cfg (.b1 st cur) first = completeBlock2 cfg cur first)
     (h0 : Truthful body first)
@@ -270,9 +324,65 @@ theorem C05_ok_is_server_body (cfg : Cfg) (pre : List Resp) (first : Resp) (rs :
       (r.etag = first.etag → r.code = first.code → Truthful body r))
     (o : Body) (hok : (runClient cfg (pre ++ first :: rs)).2 = .ok o) :
     o.payload = body ∧ o.etag = first.etag ∧ o.code = first.code := by
+  rcases C05_ok_is_server_body cfg pre first rs body st cur hph hends h0
+      (fun r hr _ => (H r hr).2) o hok with h | ⟨r, hr, hnone, _⟩
+  · exact h
+  · have := (H r hr).1
+    rw [hnone] at this
+    cases this
+
+-- the upload is complete when a response is returned -------------------------------------------------
+
+/-- **C05 (a response means the upload was completed — exact exceptions).** Against ANY response
+sequence: when the request yields a response, the final Block1 request (the unfragmented request,
+or the block without the more flag, which by `C05_block1_blocks` reaches the end of the payload)
+was emitted — unless the SERVER ended the upload itself: its response `e` to a NON-final block
+(after the history `pre`)
+
+* carried no Block1 option at all and another code than 2.31 (the server answered the block as
+  if it were the whole request; aiocoap: "Block1 option completely ignored by server, assuming it
+  knows what it is doing"), or
+* acknowledged the block with the more flag cleared and an UNSUCCESSFUL code (4.08, 4.13, …),
+
+and the client took `e` for the (first block of the) result. Such a server is not a conforming
+RFC 7959 server, so the property's clause about "the body a conforming server reassembles" does
+not apply; what the caller gets is then the server's own answer (`C05_ok_is_server_body` with
+`first := e`: its hypothesis `hends` is the last conjunct here). In particular a 2.31 Continue
+can never be taken for the result of an upload (false before the fix in `BlockwiseRequest._run`). -/
+theorem C05_ok_upload_complete (cfg : Cfg) (h6 : cfg.szx0 ≤ 6) (resps : List Resp) (o : Body)
+    (hok : (runClient cfg resps).2 = .ok o) :
+    (∃ r ∈ block1Requests cfg resps, FinalReq r) ∨
+    (∃ pre e suf st cur, resps = pre ++ e :: suf ∧
+      phaseAfter cfg (start cfg) pre = .b1 st cur ∧ (sentBlock1 st cur).more = true ∧
+      EndsUploadEarly e ∧ step cfg (.b1 st cur) e = completeBlock2 cfg cur e) := by
+  obtain ⟨cur, h1, h2⟩ := enterB1_of_inv (B1Inv.start h6)
   unfold runClient at hok
-  rw [go_outcome_append, hph, go_cons, hends] at hok
-  exact completeBlock2_ok_is_body cfg cur body first rs h0 H o hok
+  unfold block1Requests runClient
+  rw [show start cfg = .b1 { szx := cfg.szx0, cursor := 0 } cur from h2] at hok ⊢
+  exact ok_upload_go resps (B1Inv.start h6) h1 o hok
+
+/-- **C05 (request body intact whenever a response is returned).** `C05_block1_reassembles` with
+its hypothesis discharged: if the request yields a response and the server did not end the upload
+early (no response to a non-final block has one of the two shapes of `EndsUploadEarly`), the
+reference reassembly of the emitted Block1 requests is exactly the payload handed to the API. -/
+theorem C05_ok_request_body_intact (cfg : Cfg) (h6 : cfg.szx0 ≤ 6) (resps : List Resp) (o : Body)
+    (hok : (runClient cfg resps).2 = .ok o)
+    (hsrv : ∀ pre e suf st cur, resps = pre ++ e :: suf →
+      phaseAfter cfg (start cfg) pre = .b1 st cur → (sentBlock1 st cur).more = true →
+      ¬ EndsUploadEarly e) :
+    reassemble (block1Requests cfg resps) = some cfg.payload := by
+  rcases C05_ok_upload_complete cfg h6 resps o hok with h | ⟨pre, e, suf, st, cur, h1, h2, h3, h4, _⟩
+  · exact C05_block1_reassembles cfg h6 resps h
+  · exact absurd h4 (hsrv pre e suf st cur h1 h2 h3)
+
+/-- **C05 (size exponent never grows, Block2 requests).** Against ANY response sequence the size
+exponents of the Block2 requests the client emits never grow: a block larger than requested is
+refused (`Misbehaves.szxGrows`), a smaller one is followed, and the client's own maximum caps the
+first one. -/
+theorem C05_block2_szx_never_grows (cfg : Cfg) (h6 : cfg.szx0 ≤ 6) (resps : List Resp) :
+    List.Pairwise (fun a b : BlockOpt => b.szx ≤ a.szx)
+      ((runClient cfg resps).1.filterMap (·.block2)) :=
+  b2_pairwise_go (PhaseOk.start h6) resps
 
 -- non-vacuity and sanity ----------------------------------------------------------------------------
 
@@ -364,6 +474,40 @@ example :
     (runClient { payload := [], szx0 := 6, maxPayload := 1124 }
       [⟨69, none, some ⟨0, true, 0⟩, none, List.range 16⟩,
        ⟨132, none, some ⟨1, false, 0⟩, none, [105, 116]⟩]).2 = .error .unexpectedBlock2 := by decide
+
+/-- the inputs fixed in the third round. (1) 48 bytes at szx 0 (3 blocks): a 2.31 WITHOUT Block1
+option after block 0 is an error (it was handed out as the result); a 2.04 without the option is
+the tolerated "server ignored Block1" case: that answer is the result and no further block is sent
+— `EndsUploadEarly` is inhabited on a reachable state. -/
+example :
+    runClient { payload := List.range 48, szx0 := 0, maxPayload := 1124 }
+      [⟨95, none, none, none, []⟩]
+    = ([⟨some ⟨0, true, 0⟩, none, some 48, List.range 16⟩], .error .unexpectedBlock1) := by decide
+example :
+    runClient { payload := List.range 48, szx0 := 0, maxPayload := 1124 }
+      [⟨68, none, none, none, [1]⟩]
+    = ([⟨some ⟨0, true, 0⟩, none, some 48, List.range 16⟩], .ok ⟨68, none, [1]⟩) := by decide
+example : EndsUploadEarly ⟨68, none, none, none, [1]⟩ := .ignoredBlock1 rfl (by decide)
+example : EndsUploadEarly ⟨136, some ⟨0, false, 0⟩, none, none, []⟩ := .failed rfl rfl (by decide)
+/-- (3) a download at szx 0 in which the server answers the request for block 4 (offset 64) with a
+64-byte block of szx 2: refused; the Block2 requests were 1, 2, 3, 4 at szx 0 -/
+example :
+    let run := runClient { payload := [], szx0 := 6, maxPayload := 1124 }
+      [⟨69, none, some ⟨0, true, 0⟩, none, List.range 16⟩,
+       ⟨69, none, some ⟨1, true, 0⟩, none, List.range 16⟩,
+       ⟨69, none, some ⟨2, true, 0⟩, none, List.range 16⟩,
+       ⟨69, none, some ⟨3, true, 0⟩, none, List.range 16⟩,
+       ⟨69, none, some ⟨1, true, 2⟩, none, List.range 64⟩]
+    run.2 = .error .unexpectedBlock2 ∧
+    run.1.filterMap (·.block2) = [⟨1, false, 0⟩, ⟨2, false, 0⟩, ⟨3, false, 0⟩, ⟨4, false, 0⟩] := by
+  decide
+/-- (4) the one exemption of `C05_ok_is_server_body`: a 4.04 without Block2 option in mid-download
+is the result, alone (not glued onto the 16 bytes received before) -/
+example :
+    (runClient { payload := [], szx0 := 6, maxPayload := 1124 }
+      [⟨69, none, some ⟨0, true, 0⟩, some [9], List.range 16⟩,
+       ⟨132, none, none, none, [103, 111, 110, 101]⟩]).2 = .ok ⟨132, none, [103, 111, 110, 101]⟩ := by
+  decide
 
 /-- a Block1 option in the answer to an unfragmented request: size hint in a 4.13 is passed on,
 a more flag is an error (the code path fixed in aiocoap) -/
